@@ -15,6 +15,11 @@ var headingTexts = []string{"a", "A", "a-1", "a_1", "a 1", "", "#", "!!!", "é",
 
 func word(r *Rng) string { return pick(r, words) }
 
+// genTitle: link titles, a share of them with characters the renderer has to escape.
+func genTitle(r *Rng) string {
+	return pick(r, []string{`"title"`, `"t & u"`, `'a <b> c'`, `"q \"x\" &amp; &copy;"`, `(paren "q")`, `"été > 1"`, `"&quot;"`, `'it''s'`})
+}
+
 func sentence(r *Rng, n int) string {
 	var b strings.Builder
 	for i := 0; i < n; i++ {
@@ -35,7 +40,7 @@ func genFamily(r *Rng, fam string) []byte {
 	label := pick(r, []string{"foo", "bar", "Foo", "a b", "1", "^x"})
 	switch fam {
 	case "refdef": // definer of link references
-		fmt.Fprintf(&b, "[%s]: /url-%d \"title %s\"\n\n[%s] and [%s][] and ![%s]\n", label, r.Intn(9), word(r), label, label, label)
+		fmt.Fprintf(&b, "[%s]: /url-%d?a=1&b=%%20 %s\n\n[%s] and [%s][] and ![%s]\n", label, r.Intn(9), genTitle(r), label, label, label)
 	case "refuse": // user of (undefined here) link references
 		fmt.Fprintf(&b, "[%s] and [%s][] and ![%s] and [text][%s]\n", label, label, label, label)
 	case "footnote":
@@ -129,7 +134,7 @@ func genFamily(r *Rng, fam string) []byte {
 	case "quote":
 		fmt.Fprintf(&b, "> %s\n> > %s\nlazy %s\n\n> - %s\n", word(r), word(r), word(r), word(r))
 	case "link":
-		fmt.Fprintf(&b, "[%s](/u \"t\") ![i](/p.png) <http://%s.com> [a [b] c](</u v>)\n", word(r), word(r))
+		fmt.Fprintf(&b, "[%s](/u %s) ![i](/p.png %s) <http://%s.com> [a [b] c](</u v>)\n", word(r), genTitle(r), genTitle(r), word(r))
 	default:
 		fmt.Fprintf(&b, "%s\n%s\n", sentence(r, r.Range(1, 6)), sentence(r, 2))
 	}
